@@ -195,4 +195,93 @@ def convertUnits (assign : Assign) (w : World) (self : Nat) (h : self < w.length
   | none => (w, .error .missingConverter)
   | some conv => dispatch assign conv to (w ++ [w[self]]) w.length w[self].cols.length
 
+/-! ## bulk conversion at read time: `pdtable/utils.py`
+    `normalized_table_generator(block_gen, convert_units_to, unit_converter)`  utils.py:14-40  -> `normGen`
+    `read_bundle_from_csv(input_path, sep, convert_units_to, unit_converter)`  utils.py:43-62  -> `readBundle`
+    (the blocks `read_csv` delivers are the input here; what `TableBundle` does with the result is `Model/Bundle.lean`) -/
+
+/-- a block of the stream: its type flag, the Table it carries (`none`: the block value is `None` or the block is
+    not a table), and an identity token for everything else it carries -/
+structure GBlk where
+  isTable : Bool
+  tbl : Option Tbl
+  tok : Str
+  deriving DecidableEq, Repr
+
+/-- the `convert_units_to` argument: per table name, the column dispatcher of that table (or `None`) -/
+inductive TDisp
+  | none                                   -- `None`
+  | dict (m : List (Str × Option To))      -- a dict (keys unique)
+  | fn (f : Str → Option To)               -- a callable on the table name
+  | other (truthy : Bool)                  -- anything else, with its truth value
+
+/-- `convert_units_to.get(table.name)` -/
+def tdictGet (m : List (Str × Option To)) (name : Str) : Option To :=
+  match m with
+  | [] => Option.none
+  | (k, v) :: rest => if k = name then v else tdictGet rest name
+
+/-- the `isinstance(convert_units_to, Dict) … elif isinstance(convert_units_to, Callable) … else raise TypeError` chain -/
+def tableTarget (d : TDisp) (name : Str) : Except Err (Option To) :=
+  match d with
+  | .dict m => .ok (tdictGet m name)
+  | .fn f => .ok (f name)
+  | .none => .error .typeError
+  | .other _ => .error .typeError
+
+/-- `table.convert_units(to=to, converter=converter)` on one table value: the new table, or the exception -/
+def convertTbl (assign : Assign) (t : Tbl) (to : To) (converter dflt : Option Conv) : Except Err Tbl :=
+  match convertUnits assign [t] 0 (by simp) to converter dflt with
+  | (w, .ok r) => match w[r]? with
+    | some t' => .ok t'
+    | Option.none => .ok t          -- unreachable: `convertUnits` answers the reference of a frame it allocated
+  | (_, .error e) => .error e
+
+/-- one turn of the generator's loop; `i` is the block's position (a stateful converter may behave
+    differently from block to block: `converter i`) -/
+def normStep (assign : Assign) (d : TDisp) (converter : Option (Nat → Conv)) (dflt : Option Conv)
+    (i : Nat) (b : GBlk) : Except Err GBlk :=
+  match b.isTable, b.tbl with
+  | true, some t =>
+    match tableTarget d t.name with
+    | .error e => .error e
+    | .ok Option.none => .ok b
+    | .ok (some to) =>
+      match convertTbl assign t to (converter.map (fun c => c i)) dflt with
+      | .ok t' => .ok { b with tbl := some t' }
+      | .error e => .error e
+  | _, _ => .ok b
+
+/-- the generator run to its end: the blocks it yielded and the exception that ended it, if any -/
+def normGenFrom (assign : Assign) (d : TDisp) (converter : Option (Nat → Conv)) (dflt : Option Conv) :
+    Nat → List GBlk → List GBlk × Option Err
+  | _, [] => ([], Option.none)
+  | i, b :: bs =>
+    match normStep assign d converter dflt i b with
+    | .error e => ([], some e)
+    | .ok b' =>
+      let (out, e) := normGenFrom assign d converter dflt (i + 1) bs
+      (b' :: out, e)
+
+def normGen (assign : Assign) (d : TDisp) (converter : Option (Nat → Conv)) (dflt : Option Conv)
+    (bs : List GBlk) : List GBlk × Option Err := normGenFrom assign d converter dflt 0 bs
+
+/-- truth value of the `convert_units_to` argument (`{}` and `None` are falsy, a function is truthy) -/
+def TDisp.truthy : TDisp → Bool
+  | .none => false
+  | .dict m => !m.isEmpty
+  | .fn _ => true
+  | .other t => t
+
+/-- `read_bundle_from_csv` after `read_csv` has been called (lazily: nothing is read before the bundle pulls):
+    the block stream handed to `TableBundle(...)`, or the exception.  `ValueError` comes before anything is read. -/
+def readBundle (assign : Assign) (d : TDisp) (converter : Option (Nat → Conv)) (dflt : Option Conv)
+    (blocks : List GBlk) : Except Err (List GBlk) :=
+  if d.truthy && converter.isNone then .error .valueError
+  else match d with
+    | .none => .ok blocks
+    | _ => match normGen assign d converter dflt blocks with
+      | (out, Option.none) => .ok out
+      | (_, some e) => .error e
+
 end Pdt.Convert
